@@ -156,8 +156,10 @@ def base_universe(fx_bytes=4000, mx=1, rulesets=("all", "format"), rc_rulesets=(
     u = []
     if cx:
         for i, c in enumerate(common.cx_cases(cx, fx_bytes, dialects)):
+            if i % 2:
+                continue
             c = dict(c)
-            c["rules"] = "all" if i % 2 else "layout"
+            c["rules"] = "all" if i % 4 else "layout"
             c["id"] += f"|rules={c['rules']}"
             c["stratum"] += f"|{c['rules']}"
             u.append(c)
@@ -187,7 +189,7 @@ def base_universe(fx_bytes=4000, mx=1, rulesets=("all", "format"), rc_rulesets=(
     if feu:
         # fix_even_unparsable switches the whole-file validation of fixes off: parsable inputs must stay parsable
         for i, c in enumerate(common.fx_cases(fx_bytes, dialects)):
-            if i % 3 and c["dialect"] != "bigquery":
+            if i % 6 and c["dialect"] != "bigquery":
                 continue
             c = dict(c)
             c["rules"] = "all"
@@ -196,14 +198,18 @@ def base_universe(fx_bytes=4000, mx=1, rulesets=("all", "format"), rc_rulesets=(
             c["stratum"] += "|feu"
             u.append(c)
     for rs in rulesets:
-        for c in common.fx_cases(fx_bytes, dialects):
+        for i, c in enumerate(common.fx_cases(fx_bytes, dialects)):
+            if rs != "all" and i % 2:
+                continue
             c = dict(c)
             c["rules"] = rs
             c["id"] += f"|rules={rs}"
             c["stratum"] += f"|{rs}"
             u.append(c)
     if mx:
-        for c in common.mx_cases(mx, fx_bytes, dialects, start=10):
+        for i, c in enumerate(common.mx_cases(mx, fx_bytes, dialects, start=10)):
+            if i % 2 == 0:
+                continue
             c = dict(c)
             c["rules"] = "all"
             c["id"] += "|rules=all"
